@@ -91,8 +91,14 @@ def expr_cases(draw, max_depth=5):
              "legacy": draw(st.sampled_from([None, None, None, "_", "|"]))}
     points = []
     for _ in range(5):
-        points.append({"species": {s: draw(st.one_of(st.integers(0, 10).map(float), gen.fl(0, 10))) for s in species},
-                       "params": {p: draw(st.one_of(st.sampled_from([1.0, 2.0, 0.5]), gen.fl(0.1, 10))) for p in params},
+        # the statement quantifies over every state and parameter vector at which the formula is finite: negative
+        # values included (a rule such as D = A - B produces them; a parse-time rewrite that is only valid for
+        # non-negative symbols must not go unnoticed)
+        points.append({"species": {s: draw(st.one_of(st.integers(0, 10).map(float), gen.fl(0, 10), gen.fl(0, 10),
+                                                     gen.fl(-10, -0.01), st.integers(-5, -1).map(float)))
+                                   for s in species},
+                       "params": {p: draw(st.one_of(st.sampled_from([1.0, 2.0, 0.5]), gen.fl(0.1, 10), gen.fl(0.1, 10),
+                                                    gen.fl(-10, -0.1))) for p in params},
                        "t": draw(st.one_of(st.sampled_from([0.0, 1.0]), gen.fl(0, 10))),
                        "vol": draw(st.one_of(st.sampled_from([1.0, 2.0, 0.5]), gen.fl(0.2, 5)))})
     surface = draw(st.sampled_from(["parse", "parse", "parse", "model", "rule", "growth"]))
